@@ -495,7 +495,14 @@ func (p Prop) Run(r *core.Run) *core.Violation {
 		big = false
 	}
 	doc := genDocument(g, maxPol, big, true)
-	if mode == 6 && len(doc.data) > 400 {
+	enumLimit := 400
+	if r.Tier == "thorough" {
+		enumLimit = 1500 // also documents that span the internal buffer
+		if mode == 6 && r.T.Intn(4) == 3 {
+			doc = genDocument(g, 2, true, true)
+		}
+	}
+	if mode == 6 && len(doc.data) > enumLimit {
 		mode = 4
 	}
 	r.Logf("document (%d bytes, %d statements, damage=%q@%d): %q", len(doc.data), len(doc.texts), doc.damaged, doc.damageAt, clip(doc.data))
